@@ -153,13 +153,17 @@ def findlabels_pre_310(code, opc):
 NO_LINE_NUMBER = -128
 
 
-def findlinestarts(code, dup_lines=False, signed_line_delta=True):
+def findlinestarts(code, dup_lines=False, signed_line_delta=True, stop_at_code_end=False):
     """Find the offsets in a byte code which are start of lines in the source.
 
     Generate pairs (offset, lineno) as described in Python/compile.c.
 
     The line increments of a co_lnotab are signed bytes from Python 3.6 on
     and unsigned bytes before that; pass signed_line_delta=False for the latter.
+
+    From Python 3.8 on, dis stops at the first co_lnotab entry that lies at or past
+    the end of the bytecode (its lines were optimized away); pass
+    stop_at_code_end=True for 3.8 and 3.9 bytecode.
     """
 
     if hasattr(code, "co_lines"):
@@ -202,11 +206,11 @@ def findlinestarts(code, dup_lines=False, signed_line_delta=True):
                         yield offset, lineno
                         lastlineno = lineno
                         pass
-                    if offset >= bytecode_len:
+                    offset += byte_incr
+                    if stop_at_code_end and offset >= bytecode_len:
                         # The rest of the ``lnotab byte offsets are past the end of
                         # the bytecode; any line numbers for these have been removed.
                         return
-                    offset += byte_incr
                     pass
                 if signed_line_delta and line_delta >= 0x80:
                     # line_deltas is an array of 8-bit *signed* integers
@@ -221,6 +225,12 @@ def findlinestarts(code, dup_lines=False, signed_line_delta=True):
 def findlinestarts_unsigned(code, dup_lines=False):
     """findlinestarts() for bytecode before Python 3.6: co_lnotab line increments are unsigned."""
     return findlinestarts(code, dup_lines=dup_lines, signed_line_delta=False)
+
+
+def findlinestarts_38(code, dup_lines=False):
+    """findlinestarts() for Python 3.8 and 3.9 bytecode: like dis of those versions, stop at
+    the first co_lnotab entry at or past the end of the bytecode."""
+    return findlinestarts(code, dup_lines=dup_lines, stop_at_code_end=True)
 
 
 def instruction_size(op, opc):
